@@ -83,7 +83,22 @@ def run(rep: Report, tier: str) -> None:
     period = rhs[4][0][1] if td_ok else rhs
     is_virt = period[0] == "virt" and period[1] == "get_long_term_capital_gain_period"
     base_ok = is_virt and period[2] == ("fld", ("fld", g, "AbstractEntry.__configuration"), "Configuration.__country")
-    rep.check(
+    if not base_ok and not is_virt:
+        # the getter was interpreted into something else than a per-country constant: if the getters changed shape (a field set by the constructors, say)
+        # the threshold is not readable by this rule - not a located defect
+        from .. import delegation
+        from ..loader import load_package
+
+        pkg = load_package()
+        changed = []
+        for ci_ in prog.classes.values():
+            g_ = ci_.methods.get("get_long_term_capital_gain_period")
+            if g_ is not None:
+                changed += delegation.shape_changes(pkg, g_.module, g_.qualname, set())
+        if changed:
+            rep.defer_error(f"{where}: the long-term threshold is {show(period)[:120]} because get_long_term_capital_gain_period changed shape ({changed[0]}): per-country periods not decided for this shape")
+            base_ok = None
+    if base_ok is not None: rep.check(  # noqa: E701
         base_ok,
         r,
         fi.module,
@@ -108,13 +123,13 @@ def run(rep: Report, tier: str) -> None:
             continue
         if spec == "never":
             ok = val[0] == "const" and isinstance(val[1], int) and val[1] > TIMEDELTA_MAX_DAYS
-            rep.check(ok, r, ci.module, f.qualname, f"{ci.name}: period unreachable (never long-term)", f"{ci.name}.get_long_term_capital_gain_period() folds to {show(val)}; must exceed timedelta.max.days ({TIMEDELTA_MAX_DAYS}) so that nothing is ever long-term", loc(f.node), detail=show(val))
+            rep.check(ok, r, f.module, f.qualname, f"{ci.name}: period unreachable (never long-term)", f"{ci.name}.get_long_term_capital_gain_period() folds to {show(val)}; must exceed timedelta.max.days ({TIMEDELTA_MAX_DAYS}) so that nothing is ever long-term", loc(f.node), detail=show(val))
         elif spec == "env":
             defs = m.field_defs(ci)
             fld = val[2] if val[0] == "fld" else None
             d = defs.get(fld, []) if fld else []
             src_ok = len(d) == 1 and d[0][1][0] == "xcall" and d[0][1][1] == "int" and "LONG_TERM_CAPITAL_GAINS" in show(d[0][1]) or _env_int(m, ci, d)
-            rep.check(bool(src_ok), r, ci.module, f.qualname, "generic: period = int(env LONG_TERM_CAPITAL_GAINS)", f"generic period is {show(val)} defined by {[show(x[1]) for x in d]}; expected int() of the LONG_TERM_CAPITAL_GAINS environment variable, unmodified", loc(f.node))
+            rep.check(bool(src_ok), r, f.module, f.qualname, "generic: period = int(env LONG_TERM_CAPITAL_GAINS)", f"generic period is {show(val)} defined by {[show(x[1]) for x in d]}; expected int() of the LONG_TERM_CAPITAL_GAINS environment variable, unmodified", loc(f.node))
             neg = False
             for guard, node in m.raises_in(m.init_of(ci), early_exits=False):
                 for s in subterms(guard):
@@ -122,7 +137,7 @@ def run(rep: Report, tier: str) -> None:
                         neg = True
             rep.check(neg, r, ci.module, "Generic.__init__", "generic: negative period rejected", "no raise guarded by '<period field> < 0' in Generic.__init__: a negative period would be accepted", loc(ci.node))
         else:
-            rep.check(val == ("const", spec), r, ci.module, f.qualname, f"{ci.name}: period == {spec}", f"{ci.name}.get_long_term_capital_gain_period() folds to {show(val)}; the statement says {spec} days", loc(f.node), detail=show(val))
+            rep.check(val == ("const", spec), r, f.module, f.qualname, f"{ci.name}: period == {spec}", f"{ci.name}.get_long_term_capital_gain_period() folds to {show(val)}; the statement says {spec} days", loc(f.node), detail=show(val))
 
     # ---------------------------------------------------------------- C05.b
     r = rep.rule("C05.b", "timestamps are instants: the only producer rejects naive values; nothing strips or replaces tzinfo", floor=3)
